@@ -4,11 +4,11 @@
 # modules are placed by the PLACE variable: "append" (end of src/server/cloud/server.rs), "inside"
 # (inside its mod tests), default: integration test in tests/.
 P="$1"; I="$2"
-WT=/tmp/wt-confirm
+WT=${CONFIRM_WT:-/tmp/wt-confirm}
 OUT=${CONFIRM_OUT:-/tmp/confirm2}; mkdir -p $OUT
 SP=${SEED_PREFIX:-/tmp/seed2-}
 F="--no-default-features --features server-local,server-sync,server-git,storage-sqlite,bundled,tls-webpki-roots,cloud"
-export CARGO_NET_OFFLINE=true CARGO_TARGET_DIR=/tmp/wt-confirm-target
+export CARGO_NET_OFFLINE=true CARGO_TARGET_DIR=${CONFIRM_TARGET:-/tmp/wt-confirm-target}
 unset RUSTFLAGS CARGO_ENCODED_RUSTFLAGS
 [ -d $WT ] || git -C /repo worktree add -q --detach $WT HEAD
 cd $WT && git checkout -q -- . && git clean -fdq tests src
